@@ -7,7 +7,7 @@ import ast
 from ..core import Checker, Rule, attr_calls, callee_is, calls_in, resolved_calls, short
 from ..interp import Pins, find_nodes, unparse
 from ..model import AnalysisError
-from .util import enclosing_loop, enclosing_stmt, every_iteration_reaches, fmt, is_const, loop_targets_with_origin, parent, returns_of, same, self_attr_for_param, single_def
+from .util import enclosing_loop, enclosing_stmt, every_iteration_reaches, fmt, is_const, loop_targets_with_origin, parent, returns_of, same, self_attr_for_param, single_def, inline_result_names
 
 P = ("C08", "C01", "C06")
 CLS = "cleanup:CleanupTranslator"
@@ -67,7 +67,7 @@ def r_intersection(ck: Checker) -> None:
     upd = [c for c in attr_calls(func, "update") if unparse(c.func.value).startswith("self.")]  # type: ignore[attr-defined]
     ck.need(len(upd) >= 1, "_find_superseeded publishes the accumulator with self.<set>.update")
     for call in upd:
-        ok = bool(call.args) and isinstance(call.args[0], ast.Name) and call.args[0].id in acc_names
+        ok = bool(call.args) and isinstance(call.args[0], ast.Name) and bool(inline_result_names(func, call.args[0].id) & acc_names)
         ck.add("published set is the intersection accumulator", ok, func, call, f"`{fmt(call)}`", "only implications valid for all defining rules may be used")
     for call in calls:
         loop = enclosing_loop(func, call)
@@ -220,7 +220,8 @@ def r_superseeded_table(ck: Checker) -> None:
             loops = [n for n in find_nodes(func.node, lambda n: isinstance(n, ast.For)) if "var_map" in unparse(n.iter)]  # type: ignore[attr-defined]
             ck.need(len(loops) == 1, "mapping branch compares arguments along m.var_map")
             loop = loops[0]
-            cmps = [n for n in find_nodes(loop, lambda n: isinstance(n, ast.Compare)) if ".arguments[" in unparse(n)]
+            it_pre = ck.interp(func)
+            cmps = [n for n in find_nodes(loop, lambda n: isinstance(n, ast.Compare)) if ".arguments[" in unparse(n) or any(".arguments[" in it_pre.text(n.left, st) for st in it_pre.states(n))]  # type: ignore[attr-defined]
             ck.need(len(cmps) == 1, "one comparison of mapped argument pairs")
             cmp_ = cmps[0]
             ck.need(isinstance(loop.target, ast.Tuple) and "enumerate(" in unparse(loop.iter), "for rhs_index, lhs_index in enumerate(m.var_map)")  # type: ignore[attr-defined]
